@@ -2512,6 +2512,13 @@ impl VmGreenThread {
         }
     }
 
+    /// verification hook: what `pc_to_error_location` reports for `pc` (file, line, function)
+    #[cfg(abra_verif)]
+    pub fn verif_error_location(&self, pc: u32) -> (String, u32, String) {
+        let l = self.pc_to_error_location(ProgramCounter(pc));
+        (l.filename, l.lineno, l.function_name)
+    }
+
     fn make_stack_trace(&self) -> Vec<VmErrorLocation> {
         let mut ret = vec![];
         for frame in &self.call_stack {
